@@ -6,6 +6,7 @@ pub mod ser;
 pub mod xmlser;
 pub mod xmltb;
 pub mod tendril;
+pub mod tendril2;
 pub mod rcdom;
 pub mod tok;
 pub mod tb;
@@ -21,6 +22,7 @@ pub fn dispatch(engine: &str, fields: &[&str]) -> String {
         "xmlser" => xmlser::run(fields),
         "xmltb" => xmltb::run(fields),
         "tendril" => tendril::run(fields),
+        "tendril2" => tendril2::run(fields),
         "rcdom" => rcdom::run(fields),
         "tok" => tok::run(fields),
         "tb" => tb::run(fields),
